@@ -812,7 +812,8 @@ def case_list(chk: Check):
             cases.append({"algo": algo, "family": "vector", "share": share, "seed": rng.randrange(1 << 20),
                           "size": size, "ops": gen_ops(rng, gens, size, fk)})
     # learning-rate mutations where one lr attribute feeds several optimizers
-    for algo, hp in ([("TD3", "lr_critic"), ("IPPO", "lr")] if quick else
+    # (PPO: ONE optimizer over [actor, critic] = two param groups on one lr attribute — every group is read)
+    for algo, hp in ([("TD3", "lr_critic"), ("IPPO", "lr"), ("PPO", "lr")] if quick else
                      [("TD3", "lr_critic"), ("MATD3", "lr_critic"), ("IPPO", "lr"), ("PPO", "lr"), ("DDPG", "lr_actor")]):
         cases.append({"algo": algo, "family": "vector", "share": None, "seed": rng.randrange(1 << 20), "size": 2,
                       "hps": [hp], "ops": gen_ops(rng, 2, 2, "rl_hp")})
